@@ -431,6 +431,29 @@ def edge_cases(draw):
     return {'kind': 'edges', 'edges': e, 'why': why, 'expect': expect, 'as_list': draw(st.booleans()), 'how': draw(st.sampled_from(['ctor', 'setter'])), 'as_range': as_range, 'int_dtype': int_dtype}
 
 
+@st.composite
+def mi_big_cases(draw, precision):
+    """ONE update of 150 000+ traces with two bins and two classes, samples depending on the class: single (bin, class) cells receive more
+    than 65 536 traces from one batch"""
+    g = np.random.Generator(np.random.PCG64(draw(st.integers(0, 2 ** 63))))
+    n = 150000 + draw(st.integers(0, 60))
+    off, w = draw(st.integers(0, 50)), draw(st.sampled_from([1, 7, 49]))
+    edges = [off, off + w, off + 2 * w]
+    data = g.integers(0, 2, size=(n, 1)).astype('uint8')
+    flip = g.random(n) < draw(st.sampled_from([0.05, 0.1, 0.2]))
+    bin_of = np.where(flip, 1 - data[:, 0], data[:, 0])
+    tdt = draw(st.sampled_from(['uint8', 'int16', 'float32']))
+    traces = (off + w * bin_of + g.integers(0, w, size=n)).astype(tdt).reshape(n, 1)
+    return {'kind': 'mi', 'precision': precision, 'edges': edges, 'edges_kind': 'int', 'edges_form': 'list', 'edges_float': draw(st.booleans()),
+            'bins_number': None, 'partitions': [0, 1], 'traces': traces, 'data': data, 'cuts': [], 'independent': [],
+            'mid_computes': [False], 'compute_twice': False}
+
+
+def unit_mi_big(ctx, n):
+    for i, precision in enumerate(['uint32', 'float64', 'int64']):
+        hyp.run(ctx, mi_big_cases(precision), check_mi, n, shrink_budget=0, seed_extra=i)
+
+
 def unit_mi(ctx, precision, tdtypes, n):
     hyp.run(ctx, mi_cases(precision, tdtypes), check_mi, n, shrink_budget=60 if ctx.tier == 'quick' else 400)
 
@@ -452,6 +475,7 @@ def units(tier):
                 continue
             us.append({'name': 'mi-%s-%s-%d' % (precision, '+'.join(tdts), rep), 'fn': 'unit_mi',
                        'kwargs': {'precision': precision, 'tdtypes': tdts, 'n': 800 if q else 10000}})
+    us.append({'name': 'mi-one-big-batch', 'fn': 'unit_mi_big', 'kwargs': {'n': 2 if q else 12}})
     return us
 
 
